@@ -175,4 +175,3 @@ func c06HistArgs(hist []*c06Item) map[string]string {
 	}
 	return args
 }
-
